@@ -41,8 +41,8 @@ def saturation_guard(t, elapsed):
     return False
 
 
-def check(ctx, adt=T.ANIM_ADT):
-    F = ctx.facts
+def check(ctx, adt=T.ANIM_ADT, F=None):
+    F = F or ctx.facts
     R = T.roles_of(F, adt)
     body = F.one(name="advance", impl_self_adt=adt, impl_trait=T.SA_TRAIT)
     eng = pse.Engine(F)
@@ -109,3 +109,8 @@ def check(ctx, adt=T.ANIM_ADT):
            adt_["span"], what="extra-state-fields")
     ctx.notes.append("R3 (Timeline::update is a function of (timeline, time)) is C09/R1-R3")
     ctx.notes.append("not decided: the size of the f32->Duration rounding error of each step (allowed by the property)")
+
+
+def controls(ctx, F):
+    check(ctx, adt="witness_controls::anim::CtlAnimator", F=F)
+    return [("R1", "accumulator-not-old-plus-exact-elapsed", "advance that clamps the step")]
